@@ -155,7 +155,19 @@ def _huge_run(case, out):
     rng = np.random.default_rng(case["seed"])
     m, n = case["m"], case["n"]
     out.cls("huge-n", name, dtype)
-    Jt = torch.tensor(rng.standard_normal((m, n)), dtype=tdt)
+    J0 = rng.standard_normal((m, n))
+    if name == "Krum":
+        # i.i.d. Gaussian rows in 10^6 dimensions are all at distance sqrt(2n) (1 +- 7e-4) from each other: the scores
+        # would be tied at the resolution of a float32 sum of 10^6 terms. Rows of different lengths separate them; what
+        # remains closer than eps sqrt(n) (ten times the deviation observed between two column orders) is a tie.
+        J0 = J0 * rng.uniform(0.3, 3.0, size=(m, 1))
+    Jt = torch.tensor(J0, dtype=tdt)
+    if name == "Krum":
+        sc = np.sort(refs.krum_scores(Jt.double().numpy(), spec["f"]))
+        k_ = spec["k"]
+        if k_ < m and (sc[k_] - sc[k_ - 1]) <= eps_of(dtype) * np.sqrt(n) * sc[k_ - 1]:
+            out.excluded = "krum-score-tie-at-float-resolution"
+            return
     A = aggs.make(spec, dtype)
     x0 = out.call(f"raises:{name}", A, Jt)
     if x0 is RAISED:
